@@ -61,14 +61,14 @@ func copyTree(src, dst string) error {
 // generatedOnDisk: layouts (by note) that are rendered into the scratch vod root next to the bundled assets.
 var generatedOnDisk = []string{"plain-av", "loop-whole-ms-90k", "loop-not-whole-ms-90k", "loop-1001-odd", "loop-one-tick-off",
 	"two-video-same", "two-video-differ", "two-video-differ-1ms", "time-plain", "thumbs", "gap-in-files", "two-mpds", "video-text", "text-shorter",
-	"id-slash", "id-case", "id-cyrillic", "id-space", "asset-path-cyrillic", "hi-ts-10mhz-equal", "hi-ts-9mhz-below-1us", "hi-ts-10mhz-one-tick-text",
+	"thumbs-overhang-4s", "thumbs-overhang-1ms", "thumbs-exact-3x2000ms", "id-slash", "id-case", "id-cyrillic", "id-space", "asset-path-cyrillic", "hi-ts-10mhz-equal", "hi-ts-9mhz-below-1us", "hi-ts-10mhz-one-tick-text",
 	"time-audio-plain", "time-audio-gap", "time-audio-overlap", "time-audio-second-later", "number-video-time-audio-gap"}
 
 // expected admission of the generated layouts (property text: not a whole number of ms, or
 // representations of the reference type disagree => left out)
 var expectLeftOut = map[string]bool{"loop-not-whole-ms-90k": true, "loop-1001-odd": true, "loop-one-tick-off": true,
 	"two-video-differ": true, "two-video-differ-1ms": true, "text-shorter": true,
-	"hi-ts-9mhz-below-1us": true, "hi-ts-10mhz-one-tick-text": true,
+	"thumbs-overhang-4s": true, "thumbs-overhang-1ms": true, "hi-ts-9mhz-below-1us": true, "hi-ts-10mhz-one-tick-text": true,
 	"time-audio-gap": true, "time-audio-overlap": true, "time-audio-second-later": true, "number-video-time-audio-gap": true}
 
 func setupVod(vod string) error {
